@@ -142,6 +142,7 @@ def c01(rep, tier, seed):
     suite_heap.devs(rep, ["SetAttrShare"])
     suite_heap.gen(rep, tier, "tables", cl)
     suite_heap.gen(rep, tier, "tables2", cl)
+    suite_heap.gen(rep, "quick", "alias", cl)       # sharers of one tuple: "a write that cannot be kept local is refused" (with refused writes in between, odd variants)
     suite_heap.trace(rep, tier, seed, cl)
     # a table assignment refused with AliasError (one addressed column shares its storage) changes nothing;
     # table-level operations never change their operands
@@ -168,7 +169,7 @@ def c02(rep, tier, seed):
         suite_heap.gen(rep, tier, "tables", cl)
     suite_heap.trace(rep, tier, seed, cl)
     suite_table.enumerated(rep, "struct", cl + ("stack", "append_rows", "transpose", "construct"))
-    suite_vec.forms(rep, ("rectangular", "grid_read", "derived_current", "derived_independent", "form_index"))
+    suite_vec.forms(rep, ("rectangular", "grid_read", "derived_current", "derived_independent", "form_index", "transpose", "row_view", "append_rows", "stack"))
     # "row slices and masks apply uniformly to all columns": every slice (start / stop / step incl. negative steps) and mask on tables
     suite_vec.gen(rep, tier, ["slice", "mask"], ("table_rows",))
 
@@ -195,7 +196,7 @@ def c16(rep, tier, seed):
     rep.assumptions += HEAP_ASSUME + ["hash collisions of the 61-bit fingerprint are excluded by the small value palette"]
     cl = ("fp_value", "outcome", "fp_order")
     suite_vec.enumerated(rep, "fplaws", cl)
-    suite_vec.forms(rep, ("history_read", "operands_unchanged"))      # incl. "read-only operations never change it"
+    suite_vec.forms(rep, ("history_read", "operands_unchanged", "fp_fresh"))      # incl. "read-only operations never change it"; after promoting and refused writes the fingerprint is a fresh vector's
     suite_heap.mc(rep, tier, ["alias", "tables", "fp"])
     suite_heap.devs(rep, ["VecFpNotInvalidated", "TableFpMemo"])
     suite_heap.gen(rep, tier, "fp", cl)           # deep interleavings of fingerprint() reads with writes (paths of 6-8 calls)
@@ -222,7 +223,7 @@ def c05(rep, tier, seed):
     suite_vec.gen(rep, tier, ["elem"], C05_CL)
     suite_table.gen(rep, tier, ["arith"], ("table_arith", "table_width_mismatch"))
     suite_table.enumerated(rep, "methods", ("broadcast", "length_mismatch"))
-    suite_vec.forms(rep, ("form_elementwise", "history_read"))          # tuple / range / Vector / Row / column / one-shot iterables as operand
+    suite_vec.forms(rep, ("form_elementwise", "history_read", "form_broadcast"))          # tuple / range / Vector / Row / column / one-shot iterables as operand
     suite_vec.trace(rep, tier, seed, C05_CL, ops=("elem",))
     suite_heap.gen(rep, tier, "obsv1", ("obs_unary",))      # unary results after any history = on a fresh equal vector
 
@@ -243,7 +244,7 @@ def c07(rep, tier, seed):
     suite_vec.mc(rep, tier)
     suite_vec.gen(rep, tier, ["slice", "mask", "int", "elem"], C07_CL)
     suite_table.gen(rep, tier, ["select"], ("missing_column", "select_cols", "string_index", "commute"))
-    suite_table.enumerated(rep, "struct", ("missing_column",))      # also names that are attributes of Table / Vector
+    suite_table.enumerated(rep, "struct", ("missing_column", "row_view"))      # also names that are attributes of Table / Vector; t[i] is the row of the i-th cells, positions the columns do not have raise
     suite_vec.trace(rep, tier, seed, C07_CL, ops=("slice", "mask"))
     suite_vec.forms(rep, ("form_index", "grid_read", "derived_independent", "form_compare_none", "form_logic"))      # incl. t[rows, cols] with every combination of key kinds against the plain grid
     suite_misc.gen(rep, ["tcompare", "isinstance"], ("table_compare", "table_compare_dtype"))   # t == x ...: one <bool> column per column, None compares False
